@@ -318,3 +318,21 @@ prop('C16',
      level_text=("Exhaustive enumeration of all coordinates over a grid of map sizes (complete 2^5..2^10 x 1..256 in the thorough tier) against an independent bit layout and index formula; exploration beyond the grid."),
      technique="bounded-exhaustive enumeration with an independent index/bit-layout model, plus property-based sampling (rapidcheck)",
      design_ref="DESIGN.md section 3, C16")
+
+prop('C08',
+     quick=dict(sweep=True, pbt=(30000, 700, 10), fuzz=(100000, 700, 5)),
+     thorough=dict(sweep=True, pbt=(1500000, 900, 11), fuzz=(8000000, 900, 5), stage_timeout=3400),
+     floor=dict(quick=50000, thorough=1000000), alloc_cap_mb=128,
+     rule=("File family: indexed bitmaps emitted by an independent encoder from a tape - depth 1/4/8, width 0..70 (every residue of row bits mod 32) plus {100,255,256,257,1000,4097}, height "
+           "-40..40 incl. 0 plus {+-300}, full table (used colours 0) or partial 1..2^depth, random palette, random pixels WITH random row padding, arbitrary resolution/image-size/important-colour/"
+           "reserved fields, optionally size and pixel offset both shifted. Factory family: CreateIndexed(depth,w,h[,palette[,pixels]]) with partial/full palettes and pixels random in the "
+           "meaningful bytes. Oracle: the reader's fields equal the logical bitmap; Validate() passes; width >= 0; pixels.size() == pitch(w,depth)*|h| computed independently; palette <= 2^depth; "
+           "WriteIndexed output parsed by a strict independent parser (headers describe the file, all row padding zero) and read back with the same width, signed height, depth, every palette entry "
+           "at its index and every meaningful pixel byte preserved; factory objects round-trip to operator== equality; InvertScanLines once reverses the rows exactly and negates the height, twice "
+           "restores an equal object. Sweep: 3 depths x widths 0..70 x heights -3..3 x 3 palette modes for both families. Non-trivial = >=2 rows with >=1 padding byte, or a partial palette."),
+     sweep_what="every (depth, width 0..70, height -3..3) x {full, 1-entry, explicit-full} palette for encoder-made files and the three factory overloads",
+     assumptions=["compression field 0 (the reader's domain)", "palette bytes are compared in file order; the library's Color members are treated as the four raw bytes"],
+     title="Indexed bitmaps read back valid and round-trip pixels, palette, geometry",
+     level_text=("Round-trip and validity properties over generated bitmaps with an independent encoder/strict parser, under ASan/UBSan; complete for widths 0..70 at small heights, sampled beyond."),
+     technique="round-trip property-based testing against an independent BMP encoder/strict parser (rapidcheck + libFuzzer), dimension sweep",
+     design_ref="DESIGN.md section 3, C08")
